@@ -153,7 +153,7 @@ def main():
     violations, known_lines = [], []
 
     # 1. proof obligations
-    ok_build, build_log = lean_build()
+    ok_build, build_log = lean_build('C03')
     audit = {'obligations': 0, 'discharged': 0, 'problems': ['lake build failed'], 'theorems': [],
              'checker_cmd': f'cd {LEAN} && lake build'}
     if ok_build:
